@@ -194,7 +194,7 @@ theorem runM_append (a b : List Op) : runM (a ++ b) = (runM a >>= fun _ => runM 
 @[simp] theorem get_ok_bind {α β : Type} (a : α) (k : α → M β) : (get (.ok a) >>= k) = k a := by
   funext w; rw [bind_def]; rfl
 
-@[simp] theorem pure_bind' {α β : Type} (a : α) (k : α → M β) : ((pure a : M α) >>= k) = k a := by
+@[simp] theorem pure_bind_M {α β : Type} (a : α) (k : α → M β) : ((pure a : M α) >>= k) = k a := by
   funext w; rw [bind_def]; rfl
 
 @[simp] theorem runM_bind_pure (a : List Op) : (runM a >>= fun _ => (pure () : M Unit)) = runM a := by
@@ -337,7 +337,7 @@ theorem extLoop_eq (l : List XExt) (h : ∀ e ∈ l, e.WF) :
 theorem encode_eq (f : Fields) (h1 : f.signAlgo = 1) (h2 : f.pubkeyAlgo = 1) (h3 : f.ecCurveId = 1)
     (hi : ∀ a ∈ f.issuer, a.WF) (hs : ∀ a ∈ f.subject, a.WF) (he : ∀ e ∈ f.exts, e.WF) :
     encode f.lazy = runM (certOps f) := by
-  simp only [encode, Fields.lazy, get_ok_bind, h1, h2, h3, enumOid, if_true, pure_bind', dnEncodeAll_eq _ hi,
+  simp only [encode, Fields.lazy, get_ok_bind, h1, h2, h3, enumOid, if_true, pure_bind_M, dnEncodeAll_eq _ hi,
     dnEncodeAll_eq _ hs, extEncodeAll, extLoop_eq _ he, op_eq, certOps]
   by_cases hz : f.notAfter = 0
   · simp [hz, notAfterOps, op_eq]
@@ -396,9 +396,6 @@ theorem ekuOps_low (t : Nat) (h : 1 ≤ t ∧ t ≤ 6) : (ekuOps t).map Op.low =
   have : t = 1 ∨ t = 2 ∨ t = 3 ∨ t = 4 ∨ t = 5 ∨ t = 6 := by omega
   rcases this with rfl | rfl | rfl | rfl | rfl | rfl <;> rfl
 
-theorem lowsL_append' (a b : List Node) : Node.lowsL (a ++ b) = Node.lowsL a ++ Node.lowsL b :=
-  lowsL_append a b
-
 theorem ekus_low (l : List Nat) (h : ∀ t ∈ l, 1 ≤ t ∧ t ≤ 6) :
     (l.flatMap ekuOps).map Op.low = Node.lowsL (l.flatMap ekuNode) := by
   induction l with
@@ -427,8 +424,8 @@ theorem exts_low (l : List XExt) (h : ∀ e ∈ l, e.WF) :
     simp only [List.flatMap_cons, List.map_append, List.map_cons, Node.lowsL, extOps_low e (h e (by simp)),
       ih (fun x hx => h x (by simp [hx]))]
 
-theorem enumOid'_some (v : Nat) (oid o : List Nat) (h : enumOid' v oid = some o) : v = 1 ∧ o = oid := by
-  unfold enumOid' at h
+theorem enumOidO_some (v : Nat) (oid o : List Nat) (h : enumOidO v oid = some o) : v = 1 ∧ o = oid := by
+  unfold enumOidO at h
   split at h
   · simp at h; exact ⟨by assumption, h.symm⟩
   · simp at h
@@ -458,7 +455,7 @@ structure CertParts (f : Fields) (n : Node) : Prop where
 theorem certNode_parts (f : Fields) (n : Node) (h : certNode f = some n) : CertParts f n := by
   unfold certNode at h
   simp only [bind, Option.bind, pure] at h
-  cases h1 : enumOid' f.signAlgo OID_ECDSA_WITH_SHA256 with
+  cases h1 : enumOidO f.signAlgo OID_ECDSA_WITH_SHA256 with
   | none => simp [h1] at h
   | some o1 =>
     cases h2 : dnNode f.issuer with
@@ -473,16 +470,16 @@ theorem certNode_parts (f : Fields) (n : Node) (h : certNode f = some n) : CertP
           cases h5 : dnNode f.subject with
           | none => simp [h1, h2, h3, h4, h5] at h
           | some subject =>
-            cases h6 : enumOid' f.pubkeyAlgo OID_PUB_KEY_ECPUBKEY with
+            cases h6 : enumOidO f.pubkeyAlgo OID_PUB_KEY_ECPUBKEY with
             | none => simp [h1, h2, h3, h4, h5, h6] at h
             | some o2 =>
-              cases h7 : enumOid' f.ecCurveId OID_EC_TYPE_PRIME256V1 with
+              cases h7 : enumOidO f.ecCurveId OID_EC_TYPE_PRIME256V1 with
               | none => simp [h1, h2, h3, h4, h5, h6, h7] at h
               | some o3 =>
                 simp only [h1, h2, h3, h4, h5, h6, h7, Option.some.injEq] at h
-                obtain ⟨e1, rfl⟩ := enumOid'_some _ _ _ h1
-                obtain ⟨e2, rfl⟩ := enumOid'_some _ _ _ h6
-                obtain ⟨e3, rfl⟩ := enumOid'_some _ _ _ h7
+                obtain ⟨e1, rfl⟩ := enumOidO_some _ _ _ h1
+                obtain ⟨e2, rfl⟩ := enumOidO_some _ _ _ h6
+                obtain ⟨e3, rfl⟩ := enumOidO_some _ _ _ h7
                 exact ⟨e1, e2, e3, issuer, nb, na, subject, h2, h3, h4, h5, h.symm⟩
 
 theorem certOps_low (f : Fields) (n : Node) (h : certNode f = some n) (he : ∀ e ∈ f.exts, e.WF) :
@@ -1234,7 +1231,7 @@ theorem certNode_some (f : Fields) (h : f.Legal) : ∃ n, certNode f = some n :=
   have h3 : DOESNT_EXPIRE = 252455615999 := rfl
   obtain ⟨b, hb'⟩ := timeNode_some f.notBefore (by omega)
   obtain ⟨a, ha'⟩ := timeNode_some (if f.notAfter = 0 then DOESNT_EXPIRE else f.notAfter) (by split <;> omega)
-  simp [certNode, enumOid', sa, pa, cu, hi', hs', hb', ha', bind, Option.bind, pure]
+  simp [certNode, enumOidO, sa, pa, cu, hi', hs', hb', ha', bind, Option.bind, pure]
 
 /-- **Certificate round trip, all certificates within the declared bounds**: `as_asn1` into any buffer with enough
 room (`need`; buffers below 64 KiB) succeeds, its DER parses (definite minimal lengths) and the fields read back
